@@ -208,6 +208,9 @@ AllClosedAtEnd(s) == \A k \in DOMAIN FormEnd(s).ofds : ~FormEnd(s).ofds[k].open
      pipeline  = sequence of forms (1..3);   form = [redirs, body]
      redirs    = sequence over  "fileout" (> file on port 1)  "filein" (< existing file on port 0)
                  "filefail" (< absent file: raises)  "dupok" (2>&1)  "dupbad" (>&9: raises)  "close" (2>&-)
+                 "dupback" (>&2: slot 1 from slot 2)  "dupin" (3<&0)  "dupinback" (<&3: slot 0 from slot 3)
+                 -- with these a port the form owns can be duplicated and the original slot redirected from
+                 the duplicate or redirected again: the port is then released at FormEnd, not before, not never
      body      = [k, sub]:  "ok" (outputs and returns)  "fail" (raises)  "sleep" (returns; raises when interrupted)
                  "consume" (reads all its input: Frame.IterateInputs)
                  "cap"   output capture of the pipeline sub[1]
@@ -229,8 +232,10 @@ AllClosedAtEnd(s) == \A k \in DOMAIN FormEnd(s).ofds : ~FormEnd(s).ofds[k].open
    rendered program took the intended path. With an interruption the outcome is Unspecified. *)
 
 RaisingRedirs == {"filefail", "dupbad"}
+(* "dupinback" (<&3) raises when slot 3 has not been made by an earlier "dupin" (3<&0) of the same form *)
+RaisesAt(rs, i) == rs[i] \in RaisingRedirs \/ (rs[i] = "dupinback" /\ ~\E j \in 1..(i - 1) : rs[j] = "dupin")
 RECURSIVE FailsP(_)
-FailsF(f) == \/ \E i \in DOMAIN f.redirs : f.redirs[i] \in RaisingRedirs
+FailsF(f) == \/ \E i \in DOMAIN f.redirs : RaisesAt(f.redirs, i)
              \/ f.body.k = "fail"
              \/ (f.body.k \in {"cap", "par", "peach", "loop", "call"} /\ \E j \in DOMAIN f.body.sub : FailsP(f.body.sub[j]))
 FailsP(p) == \E i \in DOMAIN p : FailsF(p[i])
